@@ -70,7 +70,7 @@ func (ex *Exec) callFunc(st *State, fr *Frame, c ssa.Instruction, fn *ssa.Functi
 	}
 	ex.inlined[funcKey(fn)] = true
 	nf := ex.newFrame(fn, args, bind, fr)
-	if hasRecover(fn) {
+	if hasRecover(fn) && !ex.panicking {
 		oos("inlining function with defer/recover: %s", fn)
 	}
 	return ex.runBody(st, nf)
@@ -83,10 +83,23 @@ func inlineExternal(fn *ssa.Function) bool {
 		return strings.HasPrefix(n, "Uint") || strings.HasPrefix(n, "PutUint")
 	}
 	switch s {
-	case "bytes.NewBuffer", "(*bytes.Buffer).Len", "(*bytes.Buffer).Bytes", "(*bytes.Buffer).empty":
+	case "bytes.NewBuffer", "(*bytes.Buffer).Len", "(*bytes.Buffer).Bytes", "(*bytes.Buffer).empty", "(*bytes.Buffer).Reset":
 		return true
 	case "math/big.NewInt":
 		return false
+	}
+	return false
+}
+
+func callsRecover(fn *ssa.Function) bool {
+	for _, b := range fn.Blocks {
+		for _, in := range b.Instrs {
+			if c, ok := in.(*ssa.Call); ok {
+				if bi, ok2 := c.Common().Value.(*ssa.Builtin); ok2 && bi.Name() == "recover" {
+					return true
+				}
+			}
+		}
 	}
 	return false
 }
@@ -123,13 +136,26 @@ func (ex *Exec) callContract(st *State, fr *Frame, c ssa.Instruction, fn *ssa.Fu
 	// receiver / pointer params must be non-nil when the contract dereferences them: requires say so explicitly.
 	for i, r := range fc.Requires {
 		g := ex.evalBoolClause(st, env, r)
-		ex.emit(st, fr, "pre", fmt.Sprintf("%s#%d@%s", shortFuncName(fn), i+1, ex.L.instrDetail(c)), "requires "+r.Text, g, r.Props, c.Pos())
+		if ex.recoverMode {
+			ex.forkPanic(st, Not(g)) // a violated precondition may panic inside the callee
+		} else if c != nil {
+			ex.emit(st, fr, "pre", fmt.Sprintf("%s#%d@%s", shortFuncName(fn), i+1, ex.L.instrDetail(c)), "requires "+r.Text, g, r.Props, c.Pos())
+		}
 		st.assume(g)
 	}
 	pre := st.clone()
 	// havoc modifies
 	for _, m := range fc.Modifies {
 		ex.havocClause(st, env, m, "call:"+fn.Name())
+	}
+	for _, ap := range fc.Appends {
+		env2 := env.withState(st)
+		env2.in = ap.Buf.Text
+		loc, bt := env2.bufPtr(env2.eval(ap.Buf.Expr))
+		n := ex.evalIntClause(st, env, ap.N)
+		st.assume(ULe(n, Const(64, 1<<maxLenBits)))
+		id := st.allocBytes(bmBaseOf(Fresh("appended_"+fn.Name(), ArrSort)), n, true, "appended")
+		bufAppend(ex, st, loc, VSlice{Obj: id, Off: Const(64, 0), Len: n, Cap: n, Nil: False}, bt)
 	}
 	// results
 	var rets []Value
@@ -148,7 +174,7 @@ func (ex *Exec) callContract(st *State, fr *Frame, c ssa.Instruction, fn *ssa.Fu
 	}
 	env.old = pre
 	for _, en := range fc.Ensures {
-		st.assume(ex.evalBoolClause(st, env, en))
+		ex.assumeClause(st, env, en)
 	}
 	return []Outcome{{st, rets}}
 }
@@ -315,7 +341,7 @@ func (ex *Exec) callIfaceContract(st *State, fr *Frame, c *ssa.Call, recv VIface
 	}
 	env.old = pre
 	for _, en := range mc.Ensures {
-		st.assume(ex.evalBoolClause(st, env, en))
+		ex.assumeClause(st, env, en)
 	}
 	return []Outcome{{st, rets}}
 }
@@ -362,11 +388,18 @@ func (ex *Exec) builtin(st *State, fr *Frame, c *ssa.Call, name string, args []V
 	case "append":
 		return one(ex.appendBuiltin(st, fr, c, args[0], args[1], c.Common().Args[0].Type()))
 	case "panic":
+		if ex.recoverMode {
+			ex.forkPanic(st, True)
+			return nil
+		}
 		ex.emit(st, fr, "safety/panic", ex.L.instrDetail(c), "explicit panic is unreachable", False, nil, c.Pos())
 		return nil
 	case "print", "println":
 		return []Outcome{{st, nil}}
 	case "recover":
+		if ex.panicking {
+			return one(VIface{ID: Fresh("recovered#id", BV(64)), Nil: False})
+		}
 		return one(nilIface)
 	case "min", "max":
 		a := args[0].(VInt)
